@@ -9,3 +9,9 @@ import Hfsm.Model.Commit
 import Hfsm.Model.Dispatch
 import Hfsm.Model.Serial
 import Hfsm.Model.Machine
+import Hfsm.Generated.RngFacts
+import Hfsm.Model.Rng
+import Hfsm.Proofs.RngBits
+import Hfsm.Proofs.RngUniform
+import Hfsm.Props.C20
+import Hfsm.Drive.C20
